@@ -17,6 +17,12 @@ Three ties to the source, all on REAL output of `nutils.evaluable.compile`:
            Props/C02.lean proves `initialised_before_use_sound` etc.
 (M-core)   the verified model `compileCore` of the in-place protocol is compared, accumulator trace by
            accumulator trace, with the real scripts of tree programs of its sub-language.
+(streams)  nvh.c02_enum, in worker processes started before anything else: (E) every operator sequence (up to a theme
+           specific length) over the vocabularies of the optimisation pass / the in-place protocol, compiled without
+           rewriting, with the optimisation pass alone and with both passes; (P) programs with loops — in particular
+           with arrays that can only be allocated after an earlier loop — with forked outer loops under a schedule in
+           which the parent takes no iteration; (S) a static rule on every script with forked loops (accumulators
+           shared and locked).  Candidates of the workers are decided here by the Lean specification evaluator.
 """
 import base64, pickle, numpy, collections, itertools, json, ast, re, threading, time, warnings
 from nutils import evaluable as ev, types, parallel, _util
@@ -1498,7 +1504,10 @@ def run(c):
               '(b) random well-typed DAGs from nvh.genexpr (half restricted to the in-place/loop vocabulary), single arrays and nested tuples sharing subterms and loops, '
               '(c) random tree/DAG programs of the verified sub-language; each is compiled by the real evaluable.compile under sampled (quick) or all (thorough) configurations '
               'and compared exactly with the Lean specification evaluator on the un-simplified tree; a case = (program, configuration), distinct by program hash and configuration; '
-              'non-trivial when the program compiles to at least one in-place statement or loop')
+              'non-trivial when the program compiles to at least one in-place statement or loop; '
+              '(d) systematic streams in worker processes: every operator sequence up to length 3 (Assemble theme) / 4 (Einsum theme) [thorough: 4 / 5] with 2-3 random instances each '
+              '(rank 1..4, axis lengths 2..3, transpositions, 0/1/2-d dofmaps, partners, 20% inside loops), real-code differential un-rewritten vs optimised vs simplified+optimised, candidates decided by the Lean specification value; '
+              'programs with loop-dependent allocation under maxprocs 2/3 with a starved parent; static shared-memory rule on every script with forked loops')
     c.assumptions += [
         'complex dtype is not generated',
         'values are dyadic so float arithmetic is exact for +,-,*; results involving division/transcendentals are compared with rtol 1e-11 (counted as "close")',
@@ -1506,7 +1515,10 @@ def run(c):
         'the script checker tracks initialisation per region of an array under the tiling assumption stated in Model/C02.lean (validated dynamically by the sentinel)',
         'maxprocs=2 is compared for its result only (fork based); scheduling is the subject of C16',
         'compileCore (verified model) covers {leaf, Add, Inflate/Assemble, Transpose, LoopSum} without statement hoisting; its tie to the real scripts is a comparison of accumulator traces',
-        'Lean evaluator parametricity (symbolic "same" => equal for all real arguments) relies on Props/Poly']
+        'Lean evaluator parametricity (symbolic "same" => equal for all real arguments) relies on Props/Poly',
+        'worker streams: a deviation between two real compilations is only a candidate; the verdict is the comparison with the Lean specification value in this process. A deviation that is already present in the simplified tree compiled without rewriting (or a simplification that does not return) is the subject of C01: logged in extra.simplifier_deviations_seen, not a verdict here',
+        'parallel stream: the distribution of the iterations of a forked loop over the processes is steered (the parent waits until the children have consumed the shared range, 4 s patience) — a legal schedule of the real parallel.ctxrange, which is otherwise used unchanged',
+        'the rule "accumulators of forked loops are allocated with parallel.shempty and accumulated under a lock" is a Python AST analysis of the generated script, not backed by a Lean theorem; a hit is searched for a failing input under the starved-parent schedule']
     # the systematic streams run in worker processes from the very start (forked before this process has threads or
     # instrumentation); they are collected, and their candidates decided by the specification oracle, at the end
     streams = c02_enum.Streams(c)
@@ -1561,7 +1573,7 @@ def stream_verdicts(c, streams, counts):
     """collect the worker streams; decide their candidates with the specification oracle"""
     quick = c.tier == 'quick'
     try:
-        results = streams.collect(150 if quick else 1500)
+        results = streams.collect(400 if quick else 1800)
     except Exception as ex:
         raise Infra('the worker streams did not finish: %r' % (ex,))
     cands = []
